@@ -46,6 +46,12 @@ def instances(tier):
     for s in seqs:
         fam = "sympl_euler" if "KV" in s else "euler"
         out.append(dict(id="seq-%s-%s" % ("-".join(s) or "empty", fam), ops=list(s), family=fam, N=2, budget=b))
+    # event histories WITHOUT dense output (the interpolants kept for the event search are hidden state), the detector reporting in the
+    # first / second / third examined step of each run
+    # (DT-E: the run before the reset used another step, so whatever survives the reset differs from what the re-run produces)
+    for sq in ((("E",), ("E", "R"), ("DT", "E")) if quick else ([("E",)] + [(x, "E") for x in OPS] + [("E", x) for x in OPS if x != "E"] + [("DT", "E", "R"), ("DT", "E", "F")])):
+        for evcall in (1, 2, 3):
+            out.append(dict(id="seq-%s-euler-nodense-evcall%d" % ("-".join(sq), evcall), ops=list(sq), family="euler", N=2, dense=False, evcall=evcall, budget=b))
     for sq in (("I",), ("I", "R"), ("IT", "R"), ("F", "R")):
         out.append(dict(id="seq-%s-backward_euler" % "-".join(sq), ops=list(sq), family="backward_euler", N=2, budget=dict(b, wall_s=70)))
     out.append(dict(id="split-euler", ops=["SPLIT"], family="euler", N=3, budget=b))
@@ -99,6 +105,8 @@ def _scenario(c, inst):
     y0_copy = list(flat(c, y0))
     consts = dict(k=c.real("kconst"))
     consts_copy = dict(consts)
+    dense = inst.get("dense", True)
+    evcall = inst.get("evcall", 1)
 
     def mk_rhs():
         base = FreshRhs(c, shape, name="f", mode="uf")
@@ -113,7 +121,7 @@ def _scenario(c, inst):
         return rhs
 
     def construct(rhs, rtol=None, atol=None):
-        a = de.OdeSystem(rhs, y0=y0, t=(t0, tf), dt=dt0, dense_output=True, rtol=rtol, atol=atol, constants=consts)
+        a = de.OdeSystem(rhs, y0=y0, t=(t0, tf), dt=dt0, dense_output=dense, rtol=rtol, atol=atol, constants=consts)
         a.method = method
         return a
 
@@ -137,7 +145,7 @@ def _scenario(c, inst):
     def events_stub(sol_tuple, events, constants, direction, is_terminal, attributes):
         sol, t_prev, t_next = sol_tuple
         evstate["n"] += 1
-        if evstate["n"] == 1:
+        if evstate["n"] == evcall:
             lam = c.real("evpos")
             c.assume(lam > 0)
             c.assume(lam < 1)
@@ -224,14 +232,14 @@ def _scenario(c, inst):
         return
     sol = a.sol
     flags = [len(a.t) == 1, len(a.y) == 1, len(a.events) == 0, a.nfev == 0, a.integration_status == "Integration has not been run.",
-             sol is not None and len(sol) == 0]
+             (sol is not None and len(sol) == 0) if dense else sol is None]
     c.check("c13.reset_restores_pristine_observables", all(flags), info=dict(flags=flags, ops=ops))
     c.check("c13.reset_restores_t0_y0_dt0", c.all([c.eq(a.t[0], t0), _eqv(c, a.y[0], y0), c.eq(absval(c, a.dt), adt), c.lt(0, a.dt * (tf - t0))]),
             info=dict(ops=ops))
     rhs2 = mk_rhs()
 
     def fresh():
-        b = de.OdeSystem(rhs2, y0=y0, t=(t0, tf), dt=dt0, dense_output=True, rtol=settings["rtol"], atol=settings["atol"], constants=consts)
+        b = de.OdeSystem(rhs2, y0=y0, t=(t0, tf), dt=dt0, dense_output=dense, rtol=settings["rtol"], atol=settings["atol"], constants=consts)
         b.method = settings["method"]
         if settings["kv"] is not None:
             b.set_kick_vars(settings["kv"])
@@ -262,7 +270,7 @@ def _scenario(c, inst):
     c.check("c13.run_after_reset_equals_fresh_run", same, info=dict(ops=ops, nA=len(a.t), nB=len(b.t)))
     # nfev: the fresh system additionally counts the constructor's shape probe (one call), the reset one starts from 0
     c.check("c13.counters_after_reset_equal_fresh_run", a.nfev + 1 == b.nfev and len(a.events) == len(b.events), info=dict(a=a.nfev, b=b.nfev))
-    if len(a.t) == len(b.t) and len(a.sol.t_eval) == len(b.sol.t_eval):
+    if dense and len(a.t) == len(b.t) and len(a.sol.t_eval) == len(b.sol.t_eval):
         ok = []
         for pa, pb in zip(a.sol.y_interpolants, b.sol.y_interpolants):
             for nm in ("p0", "p1", "m0", "m1"):
